@@ -898,6 +898,6 @@ def run(rec, only=None):
     rec.exhaustive["lag_padded"] = True
     core.drive_cases(rec, "formlag", formlag_grid(quick), oracle_formlag)
     rec.exhaustive["lag_small"] = rec.exhaustive["lag_fill"] = rec.exhaustive["lag_multi"] = rec.exhaustive["formlag"] = True
-    core.drive_hypothesis(rec, "limits", limits_case(), oracle_limits, 250 if quick else 4000)
-    core.drive_hypothesis(rec, "lag", lag_case(), oracle_lag, 80 if quick else 1500, seed_offset=1)
+    core.drive_hypothesis(rec, "limits", limits_case(), oracle_limits, 250 if quick else 20000)
+    core.drive_hypothesis(rec, "lag", lag_case(), oracle_lag, 80 if quick else 6000, seed_offset=1)
     rec.exhaustive["limits"] = rec.exhaustive["lag"] = False
